@@ -73,16 +73,27 @@ func VerifH_C03_tcp() {
 		verifAssume(t+20 <= n)
 		d := b[t+12] >> 4
 		verifAssume(d >= 5 && t+int(d)*4 <= n)
+		verifAssume(int(d) >= verifParam("MINDOFF", 5))
 		doff := int(verifConcretize(uint64(d)))
+		if verifParam("RROPT", 0) == 1 && doff > 5 {
+			verifAssume(b[t+20] == 254 && int(b[t+21]) == doff*4-21) // one experimental option filling the area but its last byte
+		}
 		verifAssume(c03OptsOK(b[t+20:t+doff*4], 2))
 		verifCover("tcp-frame")
 	} else {
 		verifAssume(proto != 4 && proto != 41 && proto != 94) // tunnels are not single well-formed chains
 		verifCover("other-protocol")
 	}
-	passB := c03RunBPF(prog, b)
-	perr := sm.ProcessPacketData(b, nil)
-	passR := perr == nil && len(res.got) == 1
+	captured, passB := c03Capture(prog, b) // the kernel cuts accepted frames to the filter's snap length
+	passR := false
+	if passB {
+		perr := sm.ProcessPacketData(captured, nil)
+		passR = perr == nil && len(res.got) == 1
+	} else {
+		// what the processor would do is still examined: the filter is an optimisation, not the oracle
+		perr := sm.ProcessPacketData(b, nil)
+		passR = perr == nil && len(res.got) == 1
+	}
 	verifAssert(len(res.got) <= 1, "more than one record for one frame")
 	shape := false
 	if isTCP {
